@@ -61,6 +61,14 @@ def gen(rng, tier):
             rng.shuffle(F)
         yield {'k': rng.choice(['wt', 'paths']), 'trajs': trajs, 'S': S, 'F': F, 'form': form,
                'alpha': akind, 'mal': mal}
+    for _ in range(G.budget(40) if tier == 'quick' else 1500):     # narrow integer types, more than 127 / 255 frames
+        base = rng.choice([0, 1])
+        labs = list(range(base, base + rng.randint(2, 4)))
+        trajs = [G.traj(rng, labs, rng.randint(130, 420), sticky=rng.choice([0.5, 0.8])) + labs for _ in range(rng.choice([1, 2]))]
+        S, F = _basins(rng, labs)
+        if F:
+            yield {'k': rng.choice(['wt', 'paths']), 'trajs': trajs, 'S': S, 'F': F, 'form': 'loa', 'alpha': 'long-narrow',
+                   'mal': None, 'dtypes': [rng.choice(['int8', 'uint8', 'int16'])]}
     if tier == 'thorough':
         labs = [0, 1, 2, 3]
         subsets = [list(c) for r in range(1, 4) for c in itertools.combinations(labs, r)]
@@ -105,7 +113,7 @@ def shrink(case):
 def impl(case):
     import msmhelper as mh
     from implutil import build
-    data = build(case['form'], case['trajs'])
+    data = build(case['form'], case['trajs'], case.get('dtypes'))
     if case['k'] == 'wt':
         r = mh.md.estimate_waiting_times(data, case['S'], case['F'])
         return {'ok': [int(v) for v in r]}
